@@ -43,6 +43,15 @@ PosIn(s, x)     == CHOOSE k \in 1..Len(s) : s[k] = x
 Plus1(s)        == [k \in 1..Len(s) |-> s[k] + 1]
 NoDup(s)        == Cardinality(SeqRange(s)) = Len(s)
 SkipAt(ms, skip) == IF skip < 0 THEN ms ELSE DropAt(ms, skip + 1)
+\* NumPy convention for naming a mode of an order-nd tensor: m in -nd..nd-1, a negative m counts from
+\* the end.  The specification normalises, so the expected value never depends on the spelling.
+\* Only tensordot's `modes` / `batched_modes` are specified with negative spellings: tensorly's
+\* _validate_contraction_modes normalises them explicitly.  mode_dot / multi_mode_dot `mode(s)`,
+\* unfolding_dot_khatri_rao `mode` and `skip_matrix` are documented as plain indices and the unchanged
+\* tree rejects or mishandles negative values there, so those stay outside the domain.
+NormMode(m, nd) == IF m < 0 THEN m + nd ELSE m
+NormSeq(s, nd)  == [k \in 1..Len(s) |-> NormMode(s[k], nd)]
+Spell(s, nd, negative) == [k \in 1..Len(s) |-> IF negative THEN s[k] - nd ELSE s[k]]
 
 ConjT(T) == [shape |-> T.shape, data |-> [n \in 1..Len(T.data) |-> CConj(T.data[n])]]
 Ones(shape) == [shape |-> shape, data |-> [n \in 1..Size(shape) |-> COne]]
@@ -239,16 +248,19 @@ SeqsUpTo(S, lo, hi) == UNION {[1..k -> S] : k \in lo..hi}
 B2N(b) == IF b THEN 1 ELSE 0
 MaxList == IF Tier = "quick" THEN 3 ELSE 4
 
+\* which mode arguments of tensordot are spelled with negative numbers
+NegKinds == {"none", "m1", "m2", "b", "all"}
 Families == {"mode_dot", "multi_mode_dot", "kronecker", "khatri_rao", "inner", "outer", "batched_outer",
              "tensordot", "mttkrp", "moment", "sampled_kr"}
 
+TDShapes == IF Tier = "quick" THEN RepShapes \cap ShapesTo(3) ELSE ShapesTo(3)
 Keys(fam) ==
     CASE fam \in {"mode_dot", "inner"} -> Shapes
-      [] fam = "multi_mode_dot" -> RepShapes
+      [] fam = "multi_mode_dot" -> {s \in RepShapes : Tier # "quick" \/ Len(s) <= 3 \/ s[1] = 2}
       [] fam \in {"kronecker", "khatri_rao", "sampled_kr"} -> MatShapes
       [] fam = "outer" -> ShapesTo(3)
       [] fam = "batched_outer" -> ShapesTo(3)
-      [] fam = "tensordot" -> ShapesTo(3)
+      [] fam = "tensordot" -> TDShapes
       [] fam = "mttkrp" -> {s \in Shapes : Len(s) >= 2}
       [] fam = "moment" -> {s \in ShapesTo(3) : Len(s) >= 2}
 
@@ -298,19 +310,24 @@ Full(fam, key) ==
             {[op |-> fam, shapes |-> <<key>> \o [k \in 1..Len(r) |-> <<key[1]>> \o r[k]]] :
                  r \in SeqsUpTo(ShapesTo0(2), 0, 2)}
       [] fam = "tensordot" ->
+            \* candidates (Keep filters them with ValidCfg): normalised mode lists first, then every
+            \* way of passing them: pair / int form, and which arguments are SPELLED with negative numbers
             LET N1 == Len(key) IN
             UNION {UNION {UNION {
-               {[op |-> fam, s1 |-> key, s2 |-> s2, m1 |-> m1, m2 |-> m2, b1 |-> b1, b2 |-> IF bi THEN b1 ELSE b2, mint |-> mi, bint |-> bi] :
+               {[op |-> fam, s1 |-> key, s2 |-> s2,
+                 m1 |-> Spell(m1, N1, ng \in {"m1", "all"}), m2 |-> Spell(m2, Len(s2), ng \in {"m2", "all"}),
+                 b1 |-> Spell(b1, N1, ng \in {"b", "all"}), b2 |-> Spell(b2, Len(s2), ng \in {"b", "all"}),
+                 mint |-> mi, bint |-> bi, neg |-> ng] :
                     b2 \in {x \in InjSeqs((0..(Len(s2) - 1)) \ SeqRange(m2), Len(b1)) :
                                \A t \in 1..Len(b1) : s2[x[t] + 1] = key[b1[t] + 1]},
                     mi \in {g \in BOOLEAN : g => /\ m1 = [t \in 1..Len(m1) |-> N1 - Len(m1) + t - 1]
                                                  /\ m2 = [t \in 1..Len(m1) |-> t - 1]},
-                    bi \in {g \in BOOLEAN : g => Len(b1) = 1 /\ b1[1] < Len(s2) /\ b1[1] \notin SeqRange(m2)
-                                                    /\ s2[b1[1] + 1] = key[b1[1] + 1]}}
+                    bi \in {g \in BOOLEAN : g => Len(b1) = 1},
+                    ng \in NegKinds}
                : m2 \in {x \in InjSeqs(0..(Len(s2) - 1), Len(m1)) : \A t \in 1..Len(m1) : s2[x[t] + 1] = key[m1[t] + 1]},
                  b1 \in UNION {InjSeqs((0..(N1 - 1)) \ SeqRange(m1), k) : k \in 0..2}}
                : m1 \in UNION {InjSeqs(0..(N1 - 1), k) : k \in 0..2}}
-               : s2 \in ShapesTo(3)}
+               : s2 \in TDShapes}
       [] fam = "mttkrp" ->
             {[op |-> fam, shape |-> key, R |-> R, mode |-> m, w |-> w, variant |-> v] :
                  R \in 1..MaxDim, m \in 0..(Len(key) - 1), w \in BOOLEAN, v \in {"default", "memory"}}
@@ -326,6 +343,12 @@ IsShape(s, lo, hi) == /\ DOMAIN s = 1..Len(s) /\ Len(s) \in lo..hi
                       /\ \A k \in 1..Len(s) : s[k] \in 1..(MaxDim + 1)
 IsBool(b) == b \in BOOLEAN
 IsModes(s, N) == DOMAIN s = 1..Len(s) /\ (\A k \in 1..Len(s) : s[k] \in 0..(N - 1)) /\ NoDup(s)
+\* a mode list as passed by the caller: all entries negative (counting from the end) or all non-negative
+IsSpelled(s, N, negative) == /\ DOMAIN s = 1..Len(s) /\ Len(s) <= N
+                             /\ \A k \in 1..Len(s) : s[k] \in (IF negative THEN (-N)..(-1) ELSE 0..(N - 1))
+\* the normalised mode lists of a tensordot configuration
+TD(c) == [m1 |-> NormSeq(c.m1, Len(c.s1)), m2 |-> NormSeq(c.m2, Len(c.s2)),
+          b1 |-> NormSeq(c.b1, Len(c.s1)), b2 |-> NormSeq(c.b2, Len(c.s2))]
 Fields(op) ==
     CASE op = "mode_dot" -> {"op", "shape", "mode", "vec", "J", "tr", "bad"}
       [] op = "multi_mode_dot" -> {"op", "shape", "modes", "vecs", "js", "skip", "tr", "given"}
@@ -333,7 +356,7 @@ Fields(op) ==
       [] op = "khatri_rao" -> {"op", "rows", "R", "skip", "w", "mask", "bad"}
       [] op = "inner" -> {"op", "s1", "s2", "n", "bad"}
       [] op \in {"outer", "batched_outer"} -> {"op", "shapes"}
-      [] op = "tensordot" -> {"op", "s1", "s2", "m1", "m2", "b1", "b2", "mint", "bint"}
+      [] op = "tensordot" -> {"op", "s1", "s2", "m1", "m2", "b1", "b2", "mint", "bint", "neg"}
       [] op = "mttkrp" -> {"op", "shape", "R", "mode", "w", "variant"}
       [] op = "moment" -> {"op", "shape", "order"}
       [] op = "sampled_kr" -> {"op", "rows", "R", "skip", "ns", "given"}
@@ -375,14 +398,22 @@ ValidCfg(c) ==
               /\ \A k \in 1..Len(c.shapes) : IsShape(c.shapes[k], 1, MaxOrder) /\ c.shapes[k][1] = c.shapes[1][1]
          [] c.op = "tensordot" ->
               /\ IsShape(c.s1, 1, MaxOrder) /\ IsShape(c.s2, 1, MaxOrder)
-              /\ IsModes(c.m1 \o c.b1, Len(c.s1)) /\ IsModes(c.m2 \o c.b2, Len(c.s2))
-              /\ Len(c.m1) = Len(c.m2) /\ Len(c.b1) = Len(c.b2)
-              /\ \A t \in 1..Len(c.m1) : c.s1[c.m1[t] + 1] = c.s2[c.m2[t] + 1]
-              /\ \A t \in 1..Len(c.b1) : c.s1[c.b1[t] + 1] = c.s2[c.b2[t] + 1]
-              /\ IsBool(c.mint) /\ IsBool(c.bint)
-              /\ (c.mint => /\ c.m1 = [t \in 1..Len(c.m1) |-> Len(c.s1) - Len(c.m1) + t - 1]
-                            /\ c.m2 = [t \in 1..Len(c.m1) |-> t - 1])
-              /\ (c.bint => Len(c.b1) = 1 /\ c.b1 = c.b2)
+              /\ c.neg \in NegKinds /\ IsBool(c.mint) /\ IsBool(c.bint)
+              /\ IsSpelled(c.m1, Len(c.s1), c.neg \in {"m1", "all"}) /\ IsSpelled(c.m2, Len(c.s2), c.neg \in {"m2", "all"})
+              /\ IsSpelled(c.b1, Len(c.s1), c.neg \in {"b", "all"}) /\ IsSpelled(c.b2, Len(c.s2), c.neg \in {"b", "all"})
+              /\ (c.neg = "m1" => Len(c.m1) >= 1) /\ (c.neg = "m2" => Len(c.m2) >= 1) /\ (c.neg = "b" => Len(c.b1) >= 1)
+              /\ (c.neg = "all" => Len(c.m1) + Len(c.b1) >= 1)
+              /\ LET t == TD(c) IN
+                   /\ IsModes(t.m1 \o t.b1, Len(c.s1)) /\ IsModes(t.m2 \o t.b2, Len(c.s2))
+                   /\ Len(t.m1) = Len(t.m2) /\ Len(t.b1) = Len(t.b2)
+                   /\ \A k \in 1..Len(t.m1) : c.s1[t.m1[k] + 1] = c.s2[t.m2[k] + 1]
+                   /\ \A k \in 1..Len(t.b1) : c.s1[t.b1[k] + 1] = c.s2[t.b2[k] + 1]
+                   \* modes=k (an int): the last k modes of tensor 1 against the first k of tensor 2
+                   /\ (c.mint => /\ t.m1 = [k \in 1..Len(t.m1) |-> Len(c.s1) - Len(t.m1) + k - 1]
+                                 /\ t.m2 = [k \in 1..Len(t.m1) |-> k - 1]
+                                 /\ (Len(c.m1) >= 1 => c.neg \notin {"m1", "m2", "all"}))
+                   \* batched_modes=k (an int): the SAME number names the batch mode of both tensors
+                   /\ (c.bint => Len(c.b1) = 1 /\ c.b1 = c.b2)
          [] c.op = "mttkrp" ->
               /\ IsShape(c.shape, 2, MaxOrder) /\ c.R \in 1..MaxDim /\ c.mode \in 0..(Len(c.shape) - 1)
               /\ IsBool(c.w) /\ c.variant \in {"default", "memory"}
@@ -428,7 +459,7 @@ Expected(c, ts, w, mask) ==
       [] c.op = "inner" -> Inner(ts[1], ts[2], c.n)
       [] c.op = "outer" -> Outer(ts)
       [] c.op = "batched_outer" -> BatchedOuter(ts)
-      [] c.op = "tensordot" -> Tensordot(ts[1], ts[2], c.m1, c.m2, c.b1, c.b2, FALSE)
+      [] c.op = "tensordot" -> LET t == TD(c) IN Tensordot(ts[1], ts[2], t.m1, t.m2, t.b1, t.b2, FALSE)
       [] c.op = "mttkrp" -> MTTKRP(ts[1], w, Tail(ts), c.mode)
       [] c.op = "moment" -> MomentNum(ts[1], c.order)
 
@@ -438,12 +469,14 @@ OutSize(c) ==      \* entries of the result (bounded by MaxOut)
       [] c.op = "inner" -> IF c.n < 0 \/ c.bad THEN 1 ELSE (Size(c.s1) * Size(c.s2)) \div (ProdSeq(SubSeq(c.s2, 1, c.n)) * ProdSeq(SubSeq(c.s2, 1, c.n)))
       [] c.op = "outer" -> ProdSeq(Concat(c.shapes))
       [] c.op = "batched_outer" -> c.shapes[1][1] * ProdSeq(Concat([k \in 1..Len(c.shapes) |-> Tail(c.shapes[k])]))
-      [] c.op = "tensordot" -> (Size(c.s1) * Size(c.s2)) \div (ProdSeq(Pick(c.s1, Plus1(c.m1))) * ProdSeq(Pick(c.s1, Plus1(c.m1))) * ProdSeq(Pick(c.s1, Plus1(c.b1))))
+      [] c.op = "tensordot" -> LET t == TD(c) IN
+            (Size(c.s1) * Size(c.s2)) \div (ProdSeq(Pick(c.s1, Plus1(t.m1))) * ProdSeq(Pick(c.s1, Plus1(t.m1))) * ProdSeq(Pick(c.s1, Plus1(t.b1))))
       [] c.op = "moment" -> LET r == Size(Tail(c.shape)) IN IF c.order = 1 THEN r ELSE IF c.order = 2 THEN r * r ELSE r * r * r
       [] OTHER -> 1
 InSizeOK(c) == LET sh == InShapes(c) IN \A k \in 1..Len(sh) : Size(sh[k]) <= MaxSize + 12
 
 \* ---- thinning
+NegCode(n) == CASE n = "none" -> 0 [] n = "m1" -> 1 [] n = "m2" -> 2 [] n = "b" -> 3 [] OTHER -> 4
 Flat(c) ==
     CASE c.op = "mode_dot" -> c.shape \o <<c.mode, B2N(c.vec), c.J, B2N(c.tr), B2N(c.bad)>>
       [] c.op = "multi_mode_dot" -> c.modes \o [j \in 1..Len(c.vecs) |-> B2N(c.vecs[j])] \o c.js \o <<c.skip + 1, B2N(c.tr), B2N(c.given)>> \o c.shape
@@ -451,18 +484,22 @@ Flat(c) ==
       [] c.op = "khatri_rao" -> <<c.skip + 1, B2N(c.w), B2N(c.mask), B2N(c.bad), c.R>> \o c.rows
       [] c.op = "inner" -> <<c.n + 1, B2N(c.bad)>> \o c.s1 \o c.s2
       [] c.op \in {"outer", "batched_outer"} -> Concat(c.shapes)
-      [] c.op = "tensordot" -> <<B2N(c.mint), B2N(c.bint)>> \o c.m1 \o c.m2 \o c.b1 \o c.b2 \o c.s1 \o c.s2
+      [] c.op = "tensordot" -> LET t == TD(c) IN
+            <<B2N(c.mint), B2N(c.bint), NegCode(c.neg)>> \o t.m1 \o t.m2 \o t.b1 \o t.b2 \o c.s1 \o c.s2
       [] c.op = "mttkrp" -> <<c.R, c.mode, B2N(c.w), B2N(c.variant = "memory")>> \o c.shape
       [] c.op = "moment" -> <<c.order>> \o c.shape
       [] c.op = "sampled_kr" -> <<c.skip + 1, c.ns, B2N(c.given), c.R>> \o c.rows
-Hash(xs, p) == SumSeq([k \in 1..Len(xs) |-> xs[k] * ((k % (p - 1)) + 1)]) % p
+\* polynomial hash of the configuration's numbers (all >= 0), reduced modulo the thinning prime
+Hash(xs, p) == LET F[k \in 0..Len(xs)] == IF k = 0 THEN 7 ELSE (F[k - 1] * 31 + xs[k] + 1) % 1000003
+               IN  F[Len(xs)] % p
 ThinTab ==
-    [quick    |-> [mode_dot |-> 13, multi_mode_dot |-> 101, kronecker |-> 43, khatri_rao |-> 7, inner |-> 31,
-                   outer |-> 37, batched_outer |-> 47, tensordot |-> 103, mttkrp |-> 23, moment |-> 1, sampled_kr |-> 19],
+    [quick    |-> [mode_dot |-> 13, multi_mode_dot |-> 59, kronecker |-> 43, khatri_rao |-> 7, inner |-> 31,
+                   outer |-> 37, batched_outer |-> 47, tensordot |-> 101, mttkrp |-> 23, moment |-> 1, sampled_kr |-> 19],
      thorough |-> [mode_dot |-> 3, multi_mode_dot |-> 29, kronecker |-> 97, khatri_rao |-> 11, inner |-> 7,
-                   outer |-> 7, batched_outer |-> 11, tensordot |-> 23, mttkrp |-> 5, moment |-> 1, sampled_kr |-> 17]]
+                   outer |-> 7, batched_outer |-> 11, tensordot |-> 67, mttkrp |-> 5, moment |-> 1, sampled_kr |-> 17]]
 Thin(c) == ThinTab[Tier][c.op] * (IF Raises(c) THEN 5 ELSE 1)
 Keep(c) == /\ (Thin(c) = 1 \/ Hash(Flat(c), Thin(c)) = 0)
+           /\ (c.op = "tensordot" => ValidCfg(c))        \* Full("tensordot") is a candidate set
            /\ OutSize(c) <= MaxOut /\ InSizeOK(c)
 
 ----------------------------------------------------------------------------
@@ -558,17 +595,18 @@ ThmTensordot(c, ts) ==
         B == ts[2]
         NA == Len(A.shape)
         NB == Len(B.shape)
-        M1 == Plus1(c.m1)
-        M2 == Plus1(c.m2)
-        B1 == Plus1(c.b1)
-        B2 == Plus1(c.b2)
+        t == TD(c)
+        M1 == Plus1(t.m1)
+        M2 == Plus1(t.m2)
+        B1 == Plus1(t.b1)
+        B2 == Plus1(t.b2)
         fA == SortedSeq((1..NA) \ SeqRange(M1))
         fB == SortedSeq((1..NB) \ SeqRange(M2))
-        nb == Tensordot(A, B, c.m1, c.m2, <<>>, <<>>, FALSE)
+        nb == Tensordot(A, B, t.m1, t.m2, <<>>, <<>>, FALSE)
         mA == Reshape(Transpose(A, fA \o M1), <<ProdSeq(Pick(A.shape, fA)), ProdSeq(Pick(A.shape, M1))>>)
         mB == Reshape(Transpose(B, M2 \o fB), <<ProdSeq(Pick(B.shape, M2)), ProdSeq(Pick(B.shape, fB))>>)
-        out == Tensordot(A, B, c.m1, c.m2, c.b1, c.b2, FALSE)
-        outb == Tensordot(A, B, c.m1, c.m2, c.b1, c.b2, TRUE)
+        out == Tensordot(A, B, t.m1, t.m2, t.b1, t.b2, FALSE)
+        outb == Tensordot(A, B, t.m1, t.m2, t.b1, t.b2, TRUE)
         oB == SortedSeq((1..NB) \ (SeqRange(M2) \cup SeqRange(B2)))
         oAb == B1 \o SortedSeq((1..NA) \ (SeqRange(M1) \cup SeqRange(B1)))
     IN  /\ nb.shape = Pick(A.shape, fA) \o Pick(B.shape, fB)
